@@ -15,10 +15,13 @@ Q == JsonDeserialize(IOEnv.X_IN)
 Prep(q) ==
    LET n == Loadings(q.fam, q.npts)
        nmax == SeqMax(n)
+       ov == OverIdx(q.perm, q.npts)
+       SL(j) == IF j = ov THEN OverL("slit") ELSE SlitL(q.a, q.h, q.npts, j)
    IN [n |-> n,
        theta |-> [j \in 1..q.npts |-> Coverage(n[j], nmax)],
-       L |-> [j \in 1..q.npts |-> SlitL(q.a, q.h, q.npts, j)],
-       W |-> [j \in 1..q.npts |-> WidthOf("slit", SlitL(q.a, q.h, q.npts, j), q.h)],
+       L |-> [j \in 1..q.npts |-> SL(j)],
+       W |-> [j \in 1..q.npts |-> WidthOf("slit", SL(j), q.h)],
+       over |-> ov, overL |-> OverL(q.geo),
        pi |-> PermSeq(q.perm, q.npts),
        d0 |-> D0(q.a, q.h)]
 
